@@ -21,6 +21,7 @@ CONSTS = {"quick": {"Caps": "{0, 1, 2, 3}", "Alphabet": "{0, 97, 200}", "MaxXs":
 MODEL_CAPS = {"quick": (0, 1, 2, 3), "thorough": (0, 1, 2, 3, 4)}
 RANDOM = {"quick": (1, 300), "thorough": (4, 1500)}     # (histories, steps) per (type, capacity)
 CHUNK = 60000                                             # events per trace file
+PATH_OPS = ("push_back", "ctor_range")
 
 
 def _key(cap, st):
@@ -54,7 +55,9 @@ def plan(gen, rep, tier, name="String"):
     while dq:
         k = dq.popleft()
         for t in adj.get(k, ()):
-            if t["fin"] or t["rel"]:
+            # paths are built from the two most basic operations only (push_back on a, range construction of b), so that
+            # a defect in a richer operation cannot lead the replay into a state other than the planned one
+            if t["fin"] or t["rel"] or t["op"] not in PATH_OPS:
                 continue
             k2 = _key(t["cap"], t["post"])
             if k2 not in parent:
@@ -81,7 +84,7 @@ def plan(gen, rep, tier, name="String"):
         q = qs[k]
         edges = sorted((call(t) for t in adj.get(k, ())), key=lambda c: json.dumps(c, sort_keys=True))
         nedges += len(edges)
-        groups.setdefault(q["cap"], []).append({"cap": q["cap"], "path": path(k), "edges": edges,
+        groups.setdefault(q["cap"], []).append({"cap": q["cap"], "pre": q["pre"], "path": path(k), "edges": edges,
                                                "q": {f: q[f] for f in ("P", "P1", "C1", "P2", "C2", "XS", "LX", "CH", "full")},
                                                "nq": q["ncalls"]})
     ntrans = sum(len(v) for v in adj.values())
@@ -199,17 +202,19 @@ def execute(tier, groups, scripts, bins, impl, sel, types, tag=""):
             tasks.append(([bins[(impl, "big", ty)], "random", ty, str(cap), str(nh), str(steps), str(vlib.seed()), "0", "1"], tp))
             meta.append(("random", None))
     res = vlib.run_parallel(tasks, par=min(vlib.NCPU, 12))
-    outs, events, traps, unsup = [], 0, 0, set()
+    outs, events, traps, unsup, mismatches = [], 0, 0, set(), 0
     for (cmd, tp), (kind, want), (rc, err) in zip(tasks, meta, res):
         got = _count_lines(tp)
         ntr = nun = 0
+        mism = sum(1 for l in err.splitlines() if l.startswith("STATE-MISMATCH"))
+        mismatches += mism
         for l in err.splitlines():
             if l.startswith("SUMMARY"):
                 f = dict(kv.split("=") for kv in l.split()[1:])
                 ntr, nun = int(f["traps"]), int(f["unsupported"])
             elif l.startswith("UNSUPPORTED"):
                 unsup.add(l.split(" ", 2)[2] + " [" + l.split(" ", 2)[1].rsplit("_", 1)[0] + "]")
-        if want is not None and got + nun != want and ntr == 0:
+        if want is not None and got + nun != want and ntr == 0 and mism == 0:
             raise vlib.ModelFailure("driver made %d calls (+%d not drivable), the plan has %d (%s)" % (got, nun, want, " ".join(cmd)))
         if got == 0 and (want is None or want > 0):
             raise vlib.ModelFailure("driver produced no events: " + " ".join(cmd))
@@ -217,7 +222,7 @@ def execute(tier, groups, scripts, bins, impl, sel, types, tag=""):
             outs.append(tp)
         events += got
         traps += ntr
-    return outs, {"events": events, "traps": traps, "unsupported": sorted(unsup)}
+    return outs, {"events": events, "traps": traps, "unsupported": sorted(unsup), "state_mismatches": mismatches}
 
 
 def _merge(paths, out):
@@ -303,6 +308,8 @@ def pipeline(tier, rep, calibrate=True, name="String"):
     tv, traces = validate(traces, "string_tv_etl")
     ngroups = sum(len(g) for g in groups.values())
     rep.add_tv(name, tv, ngroups * len(TYPES) + RANDOM[tier][0] * len(TYPES) * len(BIG_CAPS))
+    if st["state_mismatches"]:
+        rep.notes.append({"groups_skipped_because_the_path_did_not_reach_the_planned_state": st["state_mismatches"]})
     rep.cov["modules"][name].update({"not_drivable": sorted(set(not_drivable) | set(st["unsupported"])), "traps": st["traps"],
                                      "char_types": list(TYPES), "model_capacities": list(MODEL_CAPS[tier]),
                                      "random_history_capacities": list(BIG_CAPS), "selection": {k: list(v) for k, v in sel.items()}})
